@@ -82,6 +82,17 @@ func (w *World) Options(dir string) *NoKV.Options {
 	opt.HotRingEnabled = false
 	opt.ValueLogHotRingOverride = false
 	opt.WriteHotKeyLimit = 0
+	if c.CfgInt("hot_routing", 0) == 1 && opt.ValueLogBucketCount >= 2 {
+		// hot/cold value-log routing: a key written twice moves from a cold
+		// bucket (high ids) to the hot bucket 0. Plain counting rings: no
+		// rotation, decay or window (no background goroutines, no clock).
+		opt.HotRingEnabled = true
+		opt.HotRingRotationInterval, opt.HotRingDecayInterval, opt.HotRingWindowSlots = 0, 0, 0
+		opt.ValueLogHotRingOverride = true
+		opt.ValueLogHotRingBits = 4
+		opt.ValueLogHotBucketCount = 1
+		opt.ValueLogHotKeyThreshold = 2
+	}
 	opt.WriteBatchWait = time.Duration(c.CfgInt("batch_wait_us", 0)) * time.Microsecond
 	opt.WriteBatchMaxCount = int(c.CfgInt("batch_max_count", 64))
 	opt.MaxBatchCount = c.CfgInt("max_batch_count", 0)
@@ -366,6 +377,7 @@ func GenCfg(r *sim.Rand) map[string]int64 {
 		"manifest_rewrite": r.Pick64(256, 2048, 64<<20),
 		"batch_wait_us":   r.Pick64(0, 200),
 		"arena_size":      r.Pick64(1<<20, 1<<20, 1<<20, 1<<20, 1<<20, 1<<20, 1<<20, 1<<20, 1<<20, 2<<20, 0),
+		"hot_routing":     r.Pick64(0, 0, 1),
 	}
 }
 
@@ -455,8 +467,17 @@ func DescribeCopies(w *World, cf kv.ColumnFamily, key []byte) string {
 }
 
 // readErrSig classifies a failed read of a key the model says is readable.
-func readErrSig(w *World, api string, err error) map[string]string {
+func readErrSig(w *World, api string, err error, cfKey ...[]byte) map[string]string {
 	sig := map[string]string{"api": api, "kind": "other"}
+	// cfKey = {cf byte}, user key: does the key have more than one stored copy
+	// (a read can then follow a shadowed or tie-losing copy - known defects),
+	// or is the only copy of the key unreadable?
+	if len(cfKey) == 2 && w.DB != nil {
+		sig["competing_copies"] = "no"
+		if len(w.DB.VerifLocate(kv.ColumnFamily(cfKey[0][0]), cfKey[1])) >= 2 {
+			sig["competing_copies"] = "yes"
+		}
+	}
 	if strings.Contains(err.Error(), "value log file") || strings.Contains(err.Error(), "not found") {
 		sig["kind"] = "vlog_file_missing"
 	}
